@@ -45,11 +45,11 @@ func canon(v any, err error) string {
 }
 
 type config struct {
-	name     string
-	zero     bool // divideByZeroReturnsZero
-	fresh    func() *eval.Evaluator
-	reused   *eval.Evaluator
-	isZero   func(v any) (bool, bool) // (is a number, equals zero) with the configuration's own conversion
+	name   string
+	zero   bool // divideByZeroReturnsZero
+	fresh  func() *eval.Evaluator
+	reused *eval.Evaluator
+	isZero func(v any) (bool, bool) // (is a number, equals zero) with the configuration's own conversion
 }
 
 func fixedIsZero[T fixed.Dx](v any) (bool, bool) {
@@ -244,10 +244,22 @@ func (w *walker) walk(n *node) (any, error) {
 	return v, nil
 }
 
+var poison = []string{"2 * - - 3", "3 * foo(1", "7 - nope(1)", "(1 + ", "1 + 2)", "4 + 5", "-()", "max(1, "}
+
 // check compares the real evaluator (reused and fresh) with the walk of the model's tree.
 func (c *config) check(expr string, tree []string) string {
-	reused := canon(c.reused.Evaluate(expr))
 	fresh := canon(c.fresh().Evaluate(expr))
+	// self-contained reuse check: one evaluator first digests rejected and accepted expressions, then this one twice
+	local := c.fresh()
+	for _, p := range poison {
+		_, _ = local.Evaluate(p)
+	}
+	first := canon(local.Evaluate(expr))
+	if again := canon(local.Evaluate(expr)); first != fresh || again != fresh {
+		return fmt.Sprintf("FAIL %s: an evaluator used before (rejected and accepted expressions) gives %s, then %s; a fresh evaluator %s", c.name, first, again, fresh)
+	}
+	// and the evaluator that has seen every earlier line of this run
+	reused := canon(c.reused.Evaluate(expr))
 	if reused != fresh {
 		return fmt.Sprintf("FAIL %s: reused evaluator gives %s, fresh evaluator %s", c.name, reused, fresh)
 	}
